@@ -127,7 +127,7 @@ def body_ordinal(rec, c):
 @st.composite
 def engine_cases(draw):
     return {"engine": draw(st.sampled_from(["turtlemd", "turtlemd-userseed", "ase", "lammps"])), "seed": draw(st.integers(0, 2**31)), "gseed": draw(st.integers(0, 2**31)),
-            "n": draw(st.integers(2, 3)), "maxlen": draw(st.integers(4, 9)), "subcycles": draw(st.integers(1, 2))}
+            "n": draw(st.integers(2, 3)), "maxlen": draw(st.integers(4, 9)), "subcycles": draw(st.integers(1, 2)), "boundary": draw(st.sampled_from([True, True, True, False]))}
 
 
 def body_engine(rec, c):
@@ -180,6 +180,12 @@ def body_engine(rec, c):
             np.random.seed(global_seed % 2**32)
             random.seed(global_seed)
             eng.rgen = np.random.default_rng(stream_seed)
+            if c.get("boundary", True):
+                # as in a real run: the job's engine stream is a spawned child and reaches the worker through pickling
+                # (numpy keeps the state of a pickled generator, not its seed sequence)
+                import pickle
+
+                eng.rgen = pickle.loads(pickle.dumps(eng.rgen.spawn(2)[1]))
             g0 = (np.random.get_state()[1][:6].tolist(), random.getstate()[1][:6])
             path = Path(maxlen=c["maxlen"])
             eng.propagate(path, ens, ek.system_for(src, 0), reverse=False)
